@@ -83,12 +83,61 @@ let do_sv kvs =
     (if List.exists (fun b -> b.b_dirty) bufs' then 1 else 0) (show O) (show (S O))
     (if nb = 0 then "-" else String.concat ";" (List.map (fun i -> show (nat_of_int (i + 2))) ks)) (List.length sch - List.length r)
 
+(* gs names=<k> links=<a>b,...|- files=<n>:<hex>:<m>,...|- steps=<step>;<step>;...
+   one editor session on the names 0..k-1 (links: a is a symbolic link to b; files: regular files with their time
+   stamps), one buffer, foreign writers between the commands (coq/IoLinkDefs.v).  Steps (fields separated by @):
+     E@<name>                   ec_edit_l: load the buffer from the name
+     T@<hex>                    the buffer is edited: its text becomes <hex>, modified
+     W@<x|!|x!|->@<name>@<b,e|->  ec_write_l (x = the command is :x)
+     Q@<q|wq|x|xa>[!]           ec_quit_l over this one buffer
+     F@w@<name>@<hex>@<stamp> | F@r@<name>@<hex>@<stamp> | F@t@<name>@<stamp> | F@d@<name>   foreign write through links /
+                                rename over the name / touch / unlink
+   Editor writes stamp files with 200.  Steps after a quit are ignored.
+   -> q=<0|1> st=<status of the last W/Q> dirty=<0|1> rec=<recorded stamp> dir=<L<target>|<hex>|absent>,... for every name *)
+let do_gs kvs =
+  let get k = try List.assoc k kvs with Not_found -> "-" in
+  let ios = int_of_string in
+  let nn = ios (get "names") in
+  let lk = List.map (fun w -> match String.split_on_char '>' w with
+      | [a; b] -> (nat_of_int (ios a), nat_of_int (ios b)) | _ -> failwith "links") (split_on ',' (get "links")) in
+  let fs = List.map (fun w -> match String.split_on_char ':' w with
+      | [n; h; m] -> (nat_of_int (ios n), (bytes_of_hex h, z_of_int (ios m))) | _ -> failwith "files") (split_on ',' (get "files")) in
+  let now = z_of_int 200 in
+  let rng_of r = match split_on ',' r with [b; e] -> Some (nat_of_int (ios b), nat_of_int (ios e)) | _ -> None in
+  let bf0 = { b_lines = []; b_path = O; b_mtime = z_of_int (-1); b_dirty = false } in
+  let (lk, fs, bf, q, st) = List.fold_left (fun (lk, fs, bf, q, st) step ->
+      if q then (lk, fs, bf, q, st) else
+      match String.split_on_char '@' step with
+      | ["E"; n] -> (lk, fs, ec_edit_l lk fs (nat_of_int (ios n)), q, st)
+      | ["T"; h] -> (lk, fs, { bf with b_lines = split_lines (bytes_of_hex h); b_dirty = true }, q, st)
+      | ["W"; fl; n; r] ->
+        let (((st', bf'), fs'), _) = ec_write_l now (String.contains fl 'x') (String.contains fl '!') (rng_of r) lk (nat_of_int (ios n)) bf fs [] in
+        (lk, fs', bf', false, st')
+      | ["Q"; c] ->
+        let has ch = String.contains c ch in
+        let ((((q', st'), bufs'), fs'), _) = ec_quit_l now (c.[0] = 'w' || c.[0] = 'x') (c.[0] = 'x') (has 'a') (has '!') lk [bf] fs [] in
+        (lk, fs', (match bufs' with b :: _ -> b | [] -> bf), q', st')
+      | ["F"; "w"; n; h; m] -> let (lk', fs') = foreign (lk, fs) (FWrite (nat_of_int (ios n), bytes_of_hex h, z_of_int (ios m))) in (lk', fs', bf, q, st)
+      | ["F"; "r"; n; h; m] -> let (lk', fs') = foreign (lk, fs) (FReplace (nat_of_int (ios n), bytes_of_hex h, z_of_int (ios m))) in (lk', fs', bf, q, st)
+      | ["F"; "t"; n; m] -> let (lk', fs') = foreign (lk, fs) (FTouch (nat_of_int (ios n), z_of_int (ios m))) in (lk', fs', bf, q, st)
+      | ["F"; "d"; n] -> let (lk', fs') = foreign (lk, fs) (FRemove (nat_of_int (ios n))) in (lk', fs', bf, q, st)
+      | _ -> failwith ("gs step " ^ step)) (lk, fs, bf0, false, SOk) (split_on ';' (get "steps")) in
+  let show i = let p = nat_of_int i in
+    match lk_get lk p with
+    | Some t -> Printf.sprintf "L%d" (int_of_nat t)
+    | None -> (match fs_content fs p with Some c -> hex_of_bytes c | None -> "absent") in
+  pr "q=%d st=%s dirty=%d rec=%d dir=%s\n" (if q then 1 else 0)
+    (match st with SOk -> "ok" | SRefused -> "refused" | SFailed -> "failed")
+    (if bf.b_dirty then 1 else 0) (int_of_z bf.b_mtime) (String.concat "," (List.init nn show))
+
 let () =
   iter_lines (fun l ->
     (match words l with
     | ["rw"; chunks; b; e; old] -> do_rw chunks b e old None
     | ["rw"; chunks; b; e; old; pos; c2] -> do_rw chunks b e old (Some (pos, c2))
     | ["sbuf"; lens] -> do_sbuf lens
+    | "gs" :: kvs -> do_gs (List.map (fun w -> match String.index_opt w '=' with
+        | Some i -> (String.sub w 0 i, String.sub w (i + 1) (String.length w - i - 1)) | None -> (w, "")) kvs)
     | "sv" :: kvs -> do_sv (List.map (fun w -> match String.index_opt w '=' with
         | Some i -> (String.sub w 0 i, String.sub w (i + 1) (String.length w - i - 1)) | None -> (w, "")) kvs)
     | _ -> pr "?\n");
